@@ -61,13 +61,18 @@ def _underlying(kind):
         ns = {}
         exec("def twice_plus_one(x):\n    return x * 2 + 1\n", ns)
         return ns["twice_plus_one"]
+    if kind == "nested-def":
+        # a def written inside another function or method (its __qualname__ differs from its __name__)
+        ns = {}
+        exec("def factory():\n    def twice_plus_one(x):\n        return x * 2 + 1\n    return twice_plus_one\n", ns)
+        return ns["factory"]()
     return "x * 2 + 1"
 
 
 def _orders_case(k, rng):
     from histogrammar.util import CachedFcn, UserFcn, cached, named, serializable
 
-    kind = ("lambda", "def", "string")[k % 3]
+    kind = ("lambda", "def", "string", "nested-def")[(k // 2) % 4]
     failures = []
     counters = {"orders_cases": 1}
     wit = {"underlying": kind}
@@ -461,6 +466,9 @@ def run_case(i, rng, tier):
 
 def conclusive(agg):
     out = []
+    for u in ("lambda", "def", "string", "nested-def"):
+        if u not in agg.sets.get("underlying", ()):
+            out.append("wrapper orders never built on a " + u)
     for c in ("orders_built", "second_name_rejected", "shadow_calls:same", "shadow_calls:equal", "shadow_calls:different", "expr_rep:dict", "expr_rep:attr", "expr_rep:scalar", "expr_rep:vector", "twin:row", "twin:vector", "mixed_calls:dict", "mixed_calls:attr", "mixed_calls:scalar", "mixed_calls:dict-missing"):
         if not agg.counters.get(c):
             out.append("never exercised: " + c)
